@@ -57,11 +57,11 @@ Proof.
     match goal with |- context [run_plan fa sh 0 ?pl] => pose proof (run_plan_parts fa sh pl 0) as PH; destruct (run_plan fa sh 0 pl) as [wsH fH] end.
     cbn [fst plan_writes] in PH.
     destruct fH.
-    + cbn [img offs]. split; [reflexivity|]. split; [intros j Hj; apply getN_set_other; exact Hj|].
+    + cbn [img offs]. split; [reflexivity|]. split; [intros j Hj; rewrite !getN_set_other by exact Hj; reflexivity|].
       left. split; [reflexivity|]. eapply Forall_impl; [|exact PH]. intros w Hw. eapply part_of_mono; [|exact Hw].
       intros a Ha. cbn [In] in *. tauto.
     + match goal with |- context [run_plan fa sh 4 ?pl] => pose proof (run_plan_parts fa sh pl 4) as PD; destruct (run_plan fa sh 4 pl) as [wsD fD] end.
-      cbn [fst plan_writes] in PD. cbn [img offs]. split; [reflexivity|]. split; [intros j Hj; apply getN_set_other; exact Hj|].
+      cbn [fst plan_writes] in PD. cbn [img offs]. split; [reflexivity|]. split; [intros j Hj; rewrite !getN_set_other by exact Hj; reflexivity|].
       left. split; [reflexivity|]. apply Forall_app. split.
       * eapply Forall_impl; [|exact PH]. intros w Hw. eapply part_of_mono; [|exact Hw]. intros a Ha. cbn [In] in *. tauto.
       * eapply Forall_impl; [|exact PD]. intros w Hw. eapply part_of_mono; [|exact Hw]. intros a Ha. cbn [In] in *. tauto.
